@@ -323,8 +323,11 @@ def t_errors(ctx):
         bears.append(v)
         return v
     flags_ns = Namespace('flags', FITERRSMALL=1, FITERR=2, FIXED2PSF=4, FIXEDCIRCULAR=8, NOTFIT=16, WCSERR=32, PRIORIZED=64)
+    LN2 = sym('ln2')
+    ctx.assume(And(LN2 > 0.693, LN2 < 0.6932))
     g = {'np': lib.std_np(isfinite=Model(np_isfinite_arr)), 'flags': flags_ns, 'ERR_MASK': Sym(z3.RealVal(-1), True),
-         'gcd': Model(m_gcd), 'bear': Model(m_bear), 'log': Namespace('log')}
+         'gcd': Model(m_gcd), 'bear': Model(m_bear), 'log': Namespace('log'),
+         'math': Namespace('math', sqrt=Model(lib.m_sqrt), log=Model(lambda c, v: LN2 if v == 2 else lib.m_log(c, v)))}
     g['ERR_MASK'] = -1.0
     out = run_function(ctx, FFILE, 'errors', [src, P, helper], globals_=g)
     if out.kind != 'return':
